@@ -250,13 +250,13 @@ impl<'a> GenerateLogger<'a> {
 
   fn info(&self, message: &str) {
     if !self.config.quiet {
-      println!("{} {message}", format_timestamp().with(self.colors.timestamp()));
+      out!("{} {message}", format_timestamp().with(self.colors.timestamp()));
     }
   }
 
   fn stat(&self, label: &str, value: String) {
     if !self.config.quiet {
-      println!(
+      out!(
         "            {:<25} {}",
         label.with(self.colors.label()),
         value.with(self.colors.value())
@@ -350,7 +350,7 @@ impl<'a> GenerateLogger<'a> {
 
     if self.config.verbose {
       for (i, cycle) in stats.cycle_details.iter().enumerate() {
-        println!(
+        out!(
           "              {}: {}",
           format!("Cycle {}", i + 1).with(self.colors.accent()),
           cycle.join(" -> ").with(self.colors.info())
@@ -378,7 +378,7 @@ impl<'a> GenerateLogger<'a> {
       }
 
       if !printed_header {
-        println!();
+        out!();
         printed_header = true;
       }
 
@@ -414,8 +414,8 @@ impl<'a> GenerateLogger<'a> {
         GenerateMode::ClientMod => "Successfully generated Rust client module",
         GenerateMode::ServerMod => "Successfully generated Rust server module",
       };
-      println!();
-      println!(
+      out!();
+      out!(
         "{} {}",
         format_timestamp().with(self.colors.timestamp()),
         message.with(self.colors.success())
